@@ -9,7 +9,7 @@ Conformance  : (T) traces of every fixed-step family (explicit, splitting, impli
                step sequences and the final states (rounding level for fixed-step, tolerance level for adaptive).
 """
 import random
-from vf import integreplay, gen, odecore, core, scen, twins
+from vf import integreplay, modelreplay, gen, odecore, core, scen, twins
 
 LEVEL = "model_checking"
 PREFIX = ("C04.",)
@@ -89,6 +89,9 @@ def check(run, replay=None):
     if replay and isinstance(replay.get("scenario"), dict) and "integreplay" in replay["scenario"]:
         integreplay.phase(run, "C04", ('AttemptedSteps', 'Outcome', 'ReturnedStep'), replay=replay["scenario"]["integreplay"])
         return
+    if replay and isinstance(replay.get("scenario"), dict) and "modelreplay" in replay["scenario"]:
+        modelreplay.phase(run, [], "C04", ("Rows", "Dt", "RunTerminates"), replay=replay["scenario"]["modelreplay"])
+        return
     if replay:
         sc = replay.get("scenario")
         if isinstance(sc, dict) and "twin" in sc:
@@ -139,6 +142,9 @@ def check(run, replay=None):
         # spec -> code: behaviours of Integrator.tla (attempts, the controller's verdicts, retries, giving up, faults) replayed on real
         # integrator objects through the public adaptation_fn hook
         integreplay.phase(run, "C04", ('AttemptedSteps', 'Outcome', 'ReturnedStep'))
+        # spec -> code one level up: behaviours of the design model with a fixed-step family (continuation past the configured end, turning
+        # round, callbacks assigning dt, events, reset) replayed on the real code: every recorded step and the step in force are the model's
+        modelreplay.phase(run, ["OdeSystemSim_fixed_nofault"], "C04", ("Rows", "Dt", "RunTerminates"))
     run.assumptions += ["shifts are dyadic and steps dyadic, so the time arithmetic of the loop is exact and identical step "
                         "sequences are required bit-for-bit; states are compared at rounding level (16 units of eps*max(1,|y|) per step) "
                         "for fixed-step methods and at 100 x (atol + rtol|y|) for adaptive ones (spec/Bounds.tla)"]
